@@ -35,10 +35,10 @@ def hexs(b):
 class Real:
     """the sanitizer-built harness for one schema"""
 
-    def __init__(self, ctx, b, schema):
+    def __init__(self, ctx, b, schema, exp_path=None):
         self.ctx, self.b, self.schema = ctx, b, schema
         self.exe = os.path.join(ctx.work, f"h_p21safe_{schema}")
-        B.gen_schema_lib(b, os.path.join(CORPUS, schema + ".exp"), os.path.join(ctx.work, "gen_" + schema),
+        B.gen_schema_lib(b, exp_path or os.path.join(CORPUS, schema + ".exp"), os.path.join(ctx.work, "gen_" + schema),
                          [os.path.join(VERIF, "harness", "h_p21safe.cc")], self.exe)
         self.env = b.env()
         self.env["C05_TMPDIR"] = ctx.work
@@ -717,6 +717,246 @@ def attr_exhaustive(ctx, real, quick, ms_per_byte):
     return clean
 
 
+
+# ---------------------------------------------------------------------------------------------- time-ratio stream (linearity)
+KINDS_VALS = ["7", "1.5", "42", "'s'", ".T.", ".U.", ".GREEN.", "\"1F\"", "#1", "LEN(2.5)", "(1.,2.)", "((1,2),(3))", "(#1)", "$", "('a')"]
+HDR_A = ("ISO-10303-21;\nHEADER;\nFILE_DESCRIPTION((%s),'2;1');\nFILE_NAME('','',(''),(''),'','','');\nFILE_SCHEMA(('C05A'));\nENDSEC;\nDATA;\n"
+         "#1=POINT(1.,2.);\n")
+END_A = "ENDSEC;\nEND-ISO-10303-21;\n"
+Q = "'"
+
+
+def dense_shapes():
+    """escape-dense / structure-dense inputs, each a function n -> file bytes whose size is proportional to n"""
+    def kinds(i, val, pre="", post=""):
+        v = list(KINDS_VALS); v[i] = val
+        return (HDR_A % (Q + Q) + pre + "#3=KINDS(" + ",".join(v) + post + ");\n" + END_A).encode("latin-1")
+
+    def plain(body):
+        return (HDR_A % (Q + Q) + body + END_A).encode("latin-1")
+    sh = {
+        "string of doubled apostrophes": lambda n: kinds(3, Q + (Q + Q) * n + Q),
+        "string of escaped backslashes": lambda n: kinds(3, Q + "\\\\" * n + Q),
+        "string of \\S\\x": lambda n: kinds(3, Q + "\\S\\x" * n + Q),
+        "string of \\X\\41": lambda n: kinds(3, Q + "\\X\\41" * n + Q),
+        "string of \\S\\ followed by a doubled apostrophe": lambda n: kinds(3, Q + ("\\S\\" + Q + Q) * n + Q),
+        "string of plain characters": lambda n: kinds(3, Q + "s" * (2 * n) + Q),
+        "list of strings that are one escaped apostrophe": lambda n: kinds(14, "(" + ",".join([Q * 4] * n) + ")"),
+        "nested empty aggregates": lambda n: kinds(11, "(" * n + ")" * n),
+        "run of comments": lambda n: kinds(1, "/**/" * n + "1.5"),
+        "run of $,": lambda n: kinds(14, "('a')", post="," + "$," * n + "$"),
+        "real digits": lambda n: kinds(1, "1." + "7" * (2 * n)),
+        "integer digits": lambda n: kinds(0, "7" * (2 * n)),
+        "enumeration letters": lambda n: kinds(6, "." + "G" * (2 * n) + "."),
+        "binary digits": lambda n: kinds(7, '"0' + "A" * (2 * n) + '"'),
+        "list of reals": lambda n: kinds(10, "(" + "1.," * n + "1.)"),
+        "set of references": lambda n: kinds(12, "(" + "#1," * n + "#1)"),
+        "list of lists": lambda n: kinds(11, "(" + "(1)," * n + "(1))"),
+        "run of instances": lambda n: plain("".join("#%d=POINT(1.,2.);\n" % (k + 10) for k in range(n // 4))),
+        "run of complex instances": lambda n: plain("".join("#%d=(A1(2.5)BASE(%d));\n" % (k + 10, k) for k in range(n // 8))),
+        "header list of strings": lambda n: (HDR_A % ",".join(["'d'"] * n) + END_A).encode(),
+        "keyword letters": lambda n: plain("#3=" + "K" * (2 * n) + "(1);\n"),
+        "run of closing parentheses": lambda n: kinds(14, "('a')", post=")" * n),
+        "white space": lambda n: kinds(1, " \n" * n + "1.5"),
+    }
+    return sh
+
+
+RATIO_LIMIT = 6.5      # sizes grow 4x: linear time gives ~4, quadratic ~16
+RATIO_FLOOR_MS = 250   # below this the constant part and machine noise dominate
+
+
+def ratio_stream(ctx, real, quick):
+    """time(4N) / time(N) along a ladder of sizes, per shape.  A ratio test is independent of how fast the machine is;
+    a suspicious ratio is re-measured three times (minimum taken) before it counts."""
+    ladder = [2000, 8000, 32000] if quick else [2000, 8000, 32000, 128000]
+    shapes = dense_shapes()
+
+    def measure(data, budget):
+        return real.run_list([("x", budget, data)], "ratio")[0]
+
+    def one(item):
+        name, mk = item
+        prev, out = None, {"shape": name, "times": []}
+        for n in ladder:
+            data = mk(n)
+            budget = 6 if prev is None else int(6 + 12 * prev / 1000.0)
+            r = measure(data, budget)
+            if r is None:
+                break
+            if "fail" in r:
+                out["fail"] = (n, data, r, prev)
+                break
+            out["times"].append((n, len(data), r["ms"]))
+            if prev is not None and r["ms"] > RATIO_FLOOR_MS and r["ms"] > RATIO_LIMIT * prev:
+                out["suspect"] = (n, data, r["ms"], prev)
+                break
+            prev = r["ms"]
+        return out
+
+    t0 = time.time()
+    with ThreadPoolExecutor(min(8, NPROC)) as ex:
+        outs = list(ex.map(one, shapes.items()))
+    worst = 0.0
+    clean = True
+    for o in outs:
+        name = o["shape"]
+        ctx.hist("time-ratio shapes", name)
+        ctx.count(len(o["times"]), key=("ratio", real.schema, name))
+        for (n1, _, a), (n2, _, b) in zip(o["times"], o["times"][1:]):
+            if b > RATIO_FLOOR_MS:
+                worst = max(worst, b / a)
+        if "fail" in o:
+            n, data, r, prev = o["fail"]
+            clean = False
+            if r["fail"] == "timeout":
+                what = (f"{name}: size {n} units ({len(data)} bytes) did not finish within {int(6 + 12 * (prev or 0) / 1000.0)} s "
+                        f"= 6 s + 12 x the time of a quarter of the size ({prev} ms): time is not proportional to the input")
+                ctx.violation(f"time:superlinear:{name}", what,
+                              {"kind": "file", "schema": real.schema, "mode": "x", "mutation": f"{name} x {n}", "bytes_hex": data.hex(),
+                               "expect": "time(4N)/time(N) <= %.1f" % RATIO_LIMIT, "quarter_size_ms": prev})
+            else:
+                ctx.violation(f"file:{r['fail']}@{r['where']}", f"{r['fail']} in {r['where']} on {name} x {n} ({len(data)} bytes)",
+                              {"kind": "file", "schema": real.schema, "mode": "x", "mutation": f"{name} x {n}", "bytes_hex": data.hex(),
+                               "sanitizer": r.get("err", "")[-1500:]})
+        elif "suspect" in o:
+            n, data, ms, prev = o["suspect"]
+            small = shapes[name](n // 4)
+            # serial re-measurement, minimum of three for both sizes
+            a = [measure(small, 30) for _ in range(3)]
+            b = [measure(data, int(10 + 12 * prev / 1000.0)) for _ in range(3)]
+            ta = min((x["ms"] for x in a if x and "ms" in x), default=None)
+            tb = min((x["ms"] for x in b if x and "ms" in x), default=None)
+            if ta is None:
+                continue
+            if tb is None or (tb > RATIO_FLOOR_MS and tb > RATIO_LIMIT * ta):
+                clean = False
+                what = (f"{name}: {n // 4} units take {ta:.0f} ms, {n} units take " + (f"{tb:.0f} ms" if tb else "more than the budget")
+                        + (f" - ratio {tb / ta:.1f}" if tb else "") + f" for 4x the input (linear: ~4, limit {RATIO_LIMIT}); "
+                        "time is not proportional to the input")
+                ctx.violation(f"time:superlinear:{name}", what,
+                              {"kind": "file", "schema": real.schema, "mode": "x", "mutation": f"{name} x {n}", "bytes_hex": data.hex(),
+                               "ms_quarter": ta, "ms_full": tb, "expect": "time(4N)/time(N) <= %.1f" % RATIO_LIMIT})
+            else:
+                worst = max(worst, tb / ta)
+    ctx.cov["correspondence"][f"time-ratio/{real.schema}"] = {"shapes": len(shapes), "ladder": ladder, "limit": RATIO_LIMIT,
+                                                              "worst ratio above the floor": round(worst, 2),
+                                                              "wall_s": round(time.time() - t0, 1)}
+    return clean
+
+
+# ---------------------------------------------------------------------------------------------- matcher sequences
+def matcher_schema():
+    """one schema, 45 independent root supertypes: every SUPERTYPE OF expression over three subtypes (two tree shapes x
+    AND/ANDOR/ONEOF at each node) and every `(x op (y op z)) op w` over four (27); entities without attributes.
+    Returns (EXPRESS text, [root entity lists], generator module)."""
+    sys.path.insert(0, os.path.join(VERIF, "tools"))
+    import c08_gen as G
+    ops = ["and", "andor", "oneof"]
+    mk = lambda op, a, b: ("oneof", [a, b]) if op == "oneof" else (op, a, b)
+    exprs = []
+    for o1 in ops:
+        for o2 in ops:
+            exprs.append((3, lambda x, y, z, o1=o1, o2=o2: mk(o1, x, mk(o2, y, z))))
+            exprs.append((3, lambda x, y, z, o1=o1, o2=o2: mk(o1, mk(o2, x, y), z)))
+    for o1 in ops:
+        for o2 in ops:
+            for o3 in ops:
+                exprs.append((4, lambda x, y, z, w, o1=o1, o2=o2, o3=o3: mk(o3, mk(o1, x, mk(o2, y, z)), w)))
+    roots = []
+    for i, (k, f) in enumerate(exprs):
+        r = f"r{i}"
+        subs = [r + c for c in "abcd"[:k]]
+        roots.append([{"name": r, "abstract": False, "supers": [], "expr": f(*[("ent", x) for x in subs])}] +
+                     [{"name": x, "abstract": False, "supers": [r], "expr": None} for x in subs])
+    return G.render_schema([e for r in roots for e in r], "c05m"), roots, G
+
+
+def inst_text(fid, X):
+    X = sorted(X)
+    if len(X) == 1:
+        return f"#{fid}={X[0].upper()}();"
+    return f"#{fid}=(" + "".join(n.upper() + "()" for n in X) + ");"
+
+
+def seq_file(seq):
+    body = "\n".join(inst_text(10 + i, X) for i, X in enumerate(seq))
+    return ("ISO-10303-21;\nHEADER;\nFILE_DESCRIPTION((''),'2;1');\nFILE_NAME('','',(''),(''),'','','');\nFILE_SCHEMA(('C05M'));\nENDSEC;\nDATA;\n"
+            + body + "\nENDSEC;\nEND-ISO-10303-21;\n").encode()
+
+
+def matcher_sequences(ctx, b, quick):
+    """the matcher keeps state between the instances of one file: files with several complex instances (legal and
+    illegal) over every nesting of AND/ANDOR/ONEOF, in every order of two and in random longer orders"""
+    text, roots, G = matcher_schema()
+    exp = os.path.join(ctx.work, "c05m.exp")
+    open(exp, "w").write(text)
+    real = Real(ctx, b, "c05m", exp_path=exp)
+    rng = ctx.rng
+    seqs = []
+    allsets = []
+    for r in roots:
+        names = [e["name"] for e in r]
+        sets = [X for X in G.all_subsets(names) if r[0]["name"] in X]
+        legal = [X for X in sets if G.legal(r, X)]
+        illegal = [X for X in sets if not G.legal(r, X)]
+        allsets += [(X, True) for X in legal] + [(X, False) for X in illegal]
+        pairs = [(X, Y) for X in sets for Y in legal if len(X) > 1 or len(Y) > 1]
+        if quick and len(pairs) > 80:
+            # every ordered pair of legal instances always; pairs that start with an illegal one sampled
+            ll = [(X, Y) for X, Y in pairs if X in legal]
+            rest = [p for p in pairs if p[0] not in legal]
+            pairs = ll + rng.sample(rest, min(len(rest), 30))
+        seqs += [list(p) for p in pairs]
+        for _ in range(4 if quick else 40):          # longer orders within one supertype
+            k = rng.randint(3, 6)
+            seqs.append([rng.choice(sets) if rng.random() < 0.3 else rng.choice(legal) for _ in range(k)])
+    for _ in range(20 if quick else 300):           # all supertypes mixed, long files
+        k = rng.randint(10, 60)
+        seqs.append([rng.choice(allsets)[0] for _ in range(k)])
+    legal_all = [X for X, ok in allsets if ok]
+    for _ in range(6 if quick else 40):             # every legal subset once, random order
+        p = list(legal_all); rng.shuffle(p); seqs.append(p)
+    items = [("x", 20, seq_file(sq)) for sq in seqs]
+    t0 = time.time()
+    res = real.run_parallel(items, "seq")
+    fails = {}
+    for sq, (_, _, d), r in zip(seqs, items, res):
+        ctx.count(1, key=("seq", d))
+        ctx.hist("matcher sequences (instances per file)", str(min(len(sq), 10)) + ("+" if len(sq) >= 10 else ""))
+        if r is not None and "fail" in r:
+            fails.setdefault((r["fail"], r["where"]), []).append((sq, r))
+        elif r is not None and r["ord"] != 1:
+            fails.setdefault(("non-ordinary-severity", str(r["sev"])), []).append((sq, dict(r, fail="non-ordinary-severity", where=str(r["sev"]), err="")))
+    ctx.cov["correspondence"]["matcher-sequences/c05m"] = {"supertype expressions": len(roots), "files": len(items),
+                                                           "failing": len(fails), "wall_s": round(time.time() - t0, 1)}
+    for (kind, where), lst in sorted(fails.items(), key=lambda kv: str(kv[0])):
+        sq, r = min(lst, key=lambda t: len(t[0]))
+        same = lambda x: x is not None and x.get("fail") == kind
+        # delta-debug the instance list (order kept)
+        changed = True
+        while changed and len(sq) > 1:
+            changed = False
+            for i in range(len(sq)):
+                cand = sq[:i] + sq[i + 1:]
+                x = real.run_list([("x", 20, seq_file(cand))], "seqmin")[0]
+                if same(x):
+                    sq, r, changed = cand, x, True
+                    break
+        alone = [same(real.run_list([("x", 20, seq_file([X]))], "seqmin")[0]) for X in sq]
+        rev = same(real.run_list([("x", 20, seq_file(list(reversed(sq))))], "seqmin")[0]) if len(sq) > 1 else None
+        d = seq_file(sq)
+        by = {e["name"]: e for rr in roots for e in rr}
+        rootn = sorted({n for X in sq for n in X if not by[n]["supers"]})
+        exprs = "; ".join(f"{n} SUPERTYPE OF ({G.render_expr(by[n]['expr'])})" for n in rootn)
+        what = (f"{kind} in {where}: file with the instances " + " ".join(inst_text(10 + i, X) for i, X in enumerate(sq))
+                + f" over {exprs}" + (f"; each instance alone fails: {alone}; reversed order fails: {rev}" if len(sq) > 1 else ""))
+        ctx.violation(f"file:{kind}@{where}", what,
+                      {"kind": "file", "schema": "c05m", "schema_text": text, "mode": "x", "mutation": "sequence of complex instances",
+                       "bytes_hex": d.hex(), "sanitizer": r.get("err", "")[-1500:]})
+    return not fails
+
+
 # ---------------------------------------------------------------------------------------------- entry points
 def setup(ctx):
     ctx.trusted += [
@@ -780,6 +1020,8 @@ def run(ctx):
     have_model = os.path.exists(ctx.model_exe("m_c05"))
     schemas = ["c05a"] if quick else ["c05a", "c05b"]
     k = gen_constants()
+    # the matcher-sequence stream compiles its own 207-entity schema library: it runs beside the other streams
+    mfut = ThreadPoolExecutor(1).submit(matcher_sequences, ctx, b, quick)
     for si, schema in enumerate(schemas):
         real = Real(ctx, b, schema)
         files = [(f, "w" if "work" in f else "x") for f in SCHEMAS[schema]]
@@ -796,6 +1038,9 @@ def run(ctx):
             function_level(ctx, real, quick, k)
         file_level(ctx, real, files, quick, ms_per_byte)
         attr_exhaustive(ctx, real, quick, ms_per_byte)
+        if si == 0:
+            ratio_stream(ctx, real, quick)
+    mfut.result()
     ctx.sample({"function-level request": "readreal " + hexs(b"1." + b"2" * 62), "meaning": "ReadReal on a 64-character number"})
     ctx.sample({"file-level mutant": "c05a-base.p21:stretch[real '1.25E-3'] n=64"})
     ctx.sample({"attribute-exhaustive": "KINDS.e (ENUMERATION) := \"'.(\""})
@@ -813,7 +1058,11 @@ def replay(ctx, path):
     r = d.get("replay", d)
     prepare(ctx)
     b = ctx.build("asan")
-    real = Real(ctx, b, r.get("schema", "c05a"))
+    exp_path = None
+    if r.get("schema_text"):
+        exp_path = os.path.join(ctx.work, r.get("schema", "gen") + ".exp")
+        open(exp_path, "w").write(r["schema_text"])
+    real = Real(ctx, b, r.get("schema", "c05a"), exp_path=exp_path)
     if r.get("kind") == "fn":
         a = real.run_fn([r["request"]])[0]
         m = run_model(ctx, [r["request"]])[0] if os.path.exists(ctx.model_exe("m_c05")) else None
